@@ -22,7 +22,7 @@ Proof. apply wf_empty; reflexivity. Qed.
 Lemma is_reset_wf s : is_reset s -> wf s.
 Proof.
   unfold is_reset, view_of. intro H.
-  injection H as H1 _ _ H4 _ _ _ _ _ _ _ _ _ _ _ _ _ _ _ _ _ _ _ _ _ _ _ _.
+  injection H as H1 _ _ H4 _ _ _ _ _ _ _ _ _ _ _ _ _ _ _ _ _ _ _ _ _ _ _ _ _.
   apply wf_empty; assumption.
 Qed.
 
